@@ -4,8 +4,8 @@
 # Keeps it as /verif/seeded/<Cxx>-<k>/ {patch.diff, demo.py, meta.json}.
 set -u
 P="$1"; K="$2"; shift 2
-SRC=/tmp/seed_$P
-ID="$P-$K"
+ROUND="${ROUND:-1}"
+if [ "$ROUND" = "2" ]; then SRC=/tmp/seed2_$P; ID="$P-$((K+2))"; else SRC=/tmp/seed_$P; ID="$P-$K"; fi
 D=/tmp/seedconf_$ID
 OUT=/verif/seeded/$ID
 mkdir -p "$OUT"
@@ -13,12 +13,17 @@ mkdir -p "$OUT"
 cp "$SRC/patch$K.diff" "$OUT/patch.diff"; cp "$SRC/demo$K.py" "$OUT/demo.py"; cp "$SRC/meta$K.json" "$OUT/author_meta.json"
 cp "$SRC/demo$K.py" "$D/demo.py"; cp "$SRC/demo$K.py" "$D/demo$K.py"
 rebuild() { cd "$D"; for b in jellyfysh/scheduler/heap_scheduler/heap_build.py jellyfysh/potential/merged_image_coulomb_potential/merged_image_coulomb_potential_build.py jellyfysh/potential/inverse_power_coulomb_bounding_potential/inverse_power_coulomb_bounding_potential_build.py; do /venv/bin/python $b >/dev/null 2>&1; done; }
-cd "$D/jellyfysh" && PYTHONPATH="$D" timeout 1500 /venv/bin/python ../demo$K.py >/tmp/seedconf_$ID.clean.log 2>&1; RC_CLEAN=$?
+git -C "$SRC" checkout -- . 2>/dev/null
+cd "$SRC/jellyfysh" && PYTHONPATH="$SRC" timeout 2400 /venv/bin/python ../demo$K.py >/tmp/seedconf_$ID.clean.log 2>&1; RC_CLEAN=$?
 git -C "$D" apply "$OUT/patch.diff" || { echo "patch does not apply"; exit 2; }
 TOUCHC=$(grep -c '^+++ .*\.[ch]$' "$OUT/patch.diff")
 [ "$TOUCHC" != "0" ] && rebuild
 cd "$D" && TESTS=$(timeout 1500 /venv/bin/python -m pytest -q -p no:cacheprovider --timeout=900 -n 8 2>&1 | tail -1)
-cd "$D/jellyfysh" && PYTHONPATH="$D" timeout 1500 /venv/bin/python ../demo$K.py >/tmp/seedconf_$ID.mut.log 2>&1; RC_MUT=$?
+git -C "$SRC" apply "$OUT/patch.diff"
+if [ "$TOUCHC" != "0" ]; then ( cd "$SRC"; for b in jellyfysh/scheduler/heap_scheduler/heap_build.py jellyfysh/potential/merged_image_coulomb_potential/merged_image_coulomb_potential_build.py jellyfysh/potential/inverse_power_coulomb_bounding_potential/inverse_power_coulomb_bounding_potential_build.py; do /venv/bin/python $b >/dev/null 2>&1; done ); fi
+cd "$SRC/jellyfysh" && PYTHONPATH="$SRC" timeout 2400 /venv/bin/python ../demo$K.py >/tmp/seedconf_$ID.mut.log 2>&1; RC_MUT=$?
+git -C "$SRC" checkout -- .
+if [ "$TOUCHC" != "0" ]; then ( cd "$SRC"; for b in jellyfysh/scheduler/heap_scheduler/heap_build.py jellyfysh/potential/merged_image_coulomb_potential/merged_image_coulomb_potential_build.py jellyfysh/potential/inverse_power_coulomb_bounding_potential/inverse_power_coulomb_bounding_potential_build.py; do /venv/bin/python $b >/dev/null 2>&1; done ); fi
 cd /verif
 CHECKS=""
 for c in "$P" "$@"; do
@@ -32,7 +37,7 @@ am = json.load(open('/verif/seeded/%s/author_meta.json' % ID))
 meta = {"id": ID, "property": P, "summary": am.get("summary"), "needs": am.get("needs"), "files": am.get("files"),
         "confirmed_by_me": {"existing_tests_with_change": tests, "demo_exit_clean_tree": int(rc_clean),
                             "demo_exit_with_change": int(rc_mut),
-                            "how": "scratch worktree (tools/mkworktree.sh), git apply, pytest -n 8, demo.py with PYTHONPATH=<worktree>"},
+                            "how": "tests: scratch worktree (tools/mkworktree.sh), git apply, pytest -n 8; demonstration: in its author's worktree, clean tree then git apply then restored"},
         "checks_against_it": checks}
 json.dump(meta, open('/verif/seeded/%s/meta.json' % ID, 'w'), indent=1)
 print(ID, '| tests:', tests, '| demo clean/mut:', rc_clean, rc_mut, '|', checks[:300])
